@@ -163,6 +163,9 @@ Proof.
   unfold exec_cmd. destruct (mcmd m);
     repeat break_match; intros H; inversion H; subst; use_helpers; okl_tac;
     try (eapply finish_read_ok; [|eassumption]; assumption).
+  all: repeat match goal with
+              | H : (if ?c then _ else _) = _ |- _ => destruct c; inversion H; subst; clear H
+              end; okl_tac.
 Qed.
 
 Lemma exec_start_suspender_ok (s : st) sid pre post s' c o :
@@ -203,13 +206,70 @@ Proof.
     try apply close_runs_ok; try apply close_frames_ok.
 Qed.
 
+Ltac bm_hyp H :=
+  match type of H with
+  | context [match ?x with _ => _ end] => destruct x eqn:?
+  end.
+
+Ltac norm_hyps :=
+  repeat match goal with
+         | H : (if ?c then _ else _) = _ |- _ => destruct c
+         | H : Some (_, _) = Some (_, _) |- _ => inversion H; subst; clear H
+         | H : (_, _) = (_, _) |- _ => inversion H; subst; clear H
+         | H : match ?x with _ => _ end = (_, _) |- _ => destruct x eqn:?
+         end.
+
 Lemma drive_ok fuel : forall (s : st) c os s' o,
   okl os -> drive P presume plan_of D dev fuel s c os = (s', o) -> okl o.
 Proof.
   induction fuel as [|fuel IH]; intros s c os s' o Hos H; cbn [drive] in H.
   - inversion H; subst. okl_tac.
-  - destruct c.
-    + (* CTop *)
-      repeat break_match_hyp H.
-Abort.
+  - destruct c; repeat (bm_hyp H);
+      try (inversion H; subst; clear H; norm_hyps; use_helpers; okl_tac; fail);
+      try (eapply IH; [|exact H]; norm_hyps; use_helpers; okl_tac; fail).
+    all: try (eapply IH; [|exact H]; norm_hyps; use_helpers; okl_tac;
+              try (eapply exec_cmd_ok; eassumption); try (eapply exec_start_suspender_ok; eassumption); fail).
+    all: try (apply finalize_ok in H; norm_hyps; use_helpers; okl_tac; fail).
+    all: try match goal with
+         | Hp : match mcmd ?m with _ => _ end = _ |- _ =>
+             destruct (mcmd m) eqn:?;
+             first [apply exec_start_suspender_ok in Hp | apply exec_cmd_ok in Hp]
+         end.
+    all: try (inversion H; subst; clear H; norm_hyps; use_helpers; okl_tac; fail).
+    all: try (eapply IH; [|exact H]; norm_hyps; use_helpers; okl_tac; fail).
+    all: try match goal with Hf : finalize _ _ _ _ _ _ _ = _ |- _ => apply finalize_ok in Hf end;
+         inversion H; subst; okl_tac.
+Qed.
+
+Lemma task_step_ok (s : st) s' o : task_step P presume plan_of D dev s = (s', o) -> okl o.
+Proof.
+  unfold task_step. intros H.
+  repeat (bm_hyp H);
+    try (inversion H; subst; clear H; norm_hyps; use_helpers; okl_tac; fail);
+    try (eapply drive_ok; [|exact H]; norm_hyps; use_helpers; okl_tac; fail);
+    try (apply finalize_ok in H; assumption).
+  all: try (eapply drive_ok; [|exact H]; norm_hyps; use_helpers; okl_tac;
+            try (eapply finish_read_ok; [|eassumption]; okl_tac); fail).
+Qed.
+
+Lemma req_result_ok (s : st) e s' o : req_result P D s e = (s', o) -> okl o.
+Proof. unfold req_result. intros H; inversion H; subst. okl_tac. Qed.
+
+Lemma step_ok (s : st) e s' o : step P presume plan_of D dev s e = (s', o) -> okl o.
+Proof.
+  unfold step. intros H. destruct e; try (apply task_step_ok in H; assumption).
+  all: repeat (bm_hyp H);
+    repeat match goal with Hr : req_result _ _ _ _ = _ |- _ => apply req_result_ok in Hr end;
+    first [ assumption | apply req_result_ok in H; assumption
+          | inversion H; subst; clear H; norm_hyps; use_helpers; okl_tac ].
+Qed.
+
+Theorem run_transitions_legal (s : st) evs : okl (snd (run P presume plan_of D dev s evs)).
+Proof.
+  revert s; induction evs as [|e evs IH]; intros s; cbn [run].
+  - apply okl_nil.
+  - destruct (step P presume plan_of D dev s e) as [s1 o1] eqn:E1.
+    specialize (IH s1). destruct (run P presume plan_of D dev s1 evs) as [s2 o2]. cbn in *.
+    apply okl_app; [eapply step_ok; eassumption | exact IH].
+Qed.
 End Proofs.
